@@ -165,16 +165,24 @@ class Builder(object):
         self.EPS = {'res': ep_res, 'ctx': ep_ctx, 'boom': ep_boom, 'nb': ep_nb}
         self.Response = Response
 
-    def handler(self, k, debug):
-        """Every level gets its own error handler that stamps the responses it renders."""
+    def handler(self, k, debug, with_r=False):
+        """Every level gets its own error handler that stamps the responses it renders; when the level defines
+        the resource r, its render_error consumes it (the serving application's value must arrive)."""
         from clastic.errors import ErrorHandler, ContextualErrorHandler
         base = ContextualErrorHandler if debug else ErrorHandler
 
-        class H(base):
-            def render_error(self, request, _error):
-                resp = base.render_error(self, request, _error)
-                resp.headers['X-Handler'] = 'level%d' % k
-                return resp
+        if with_r:
+            class H(base):
+                def render_error(self, request, _error, r):
+                    resp = base.render_error(self, request, _error)
+                    resp.headers['X-Handler'] = 'level%d r=%s' % (k, r)
+                    return resp
+        else:
+            class H(base):
+                def render_error(self, request, _error):
+                    resp = base.render_error(self, request, _error)
+                    resp.headers['X-Handler'] = 'level%d' % k
+                    return resp
         return H()
 
     def factory(self, tag):
@@ -210,7 +218,7 @@ class Builder(object):
                     routes.append(sub_entry)
             for r in lv['routes']:
                 routes.append(Route(r['pattern'], self.EPS[r['endpoint']], r.get('render'), methods=r.get('methods')))
-            kw = {'error_handler': self.handler(k, k == 0 and lv.get('debug'))}
+            kw = {'error_handler': self.handler(k, k == 0 and lv.get('debug'), 'r' in lv['res'])}
             app = Application(routes, resources=lv['res'], middlewares=mws, slash_mode=lv['slash'],
                               render_factory=self.factory(lv['factory']) if lv['factory'] else None, **kw)
             if sub_entry is not None and style == 'add0':
@@ -220,7 +228,7 @@ class Builder(object):
     def flat(self, levels, insts):
         from clastic import Application, Route
         lv0 = levels[0]
-        kw = {'error_handler': self.handler(0, lv0.get('debug'))}
+        kw = {'error_handler': self.handler(0, lv0.get('debug'), 'r' in lv0['res'])}
         app = Application([], resources=lv0['res'], middlewares=[insts[(n, 0)] for n in lv0['mws']],
                           slash_mode=lv0['slash'], **kw)
         for fr in F.flatten(levels):
